@@ -52,6 +52,10 @@ func MarshalBinary[T any](t TestingT, cases []CaseBinary[T]) {
 			}
 		} else {
 			if assert.NoError(t, err, failInfo) {
+				if len(c.Data) == 0 && len(b) == 0 {
+					// nil and empty slice are the same (empty) data
+					b = c.Data
+				}
 				assert.Equal(t, c.Data, b, failInfo)
 			}
 		}
